@@ -56,3 +56,29 @@ def square(x):
 
 
 FUNCTORS = {"half": half, "square": square, "sin": sp.sin}
+
+
+import warnings as _warnings  # noqa: E402
+
+from ampform.sympy.deprecated import (  # noqa: E402
+    UnevaluatedExpression as _UnevaluatedExpression,
+)
+from ampform.sympy.deprecated import create_expression as _create_expression  # noqa: E402
+from ampform.sympy.deprecated import implement_doit_method as _implement_doit_method  # noqa: E402
+
+with _warnings.catch_warnings():
+    _warnings.simplefilter("ignore")
+
+    @_implement_doit_method
+    class DeprecatedPower(_UnevaluatedExpression):
+        """Built on the deprecated ``UnevaluatedExpression`` API (name in a slot)."""
+
+        def __new__(cls, x, n, name=None, **hints):
+            return _create_expression(cls, x, n, name=name, **hints)
+
+        def evaluate(self):
+            x, n = self.args
+            return x**n
+
+        def _latex(self, printer, *args):
+            return self._name or "P"
